@@ -778,8 +778,10 @@ fn driver_pairing(zooms: &Vec<u32>, options: &BBIWriteOptions, chrom_ids: &StrMa
     (handles, zoom_files)
 }
 
-/// C13 hand-off: the levels are built, then `advance` runs once per chromosome run -- at most `chrom_ids.len()` runs
-/// (see NOTES.md for what ties the number of runs to the number of ids) -- and NOTHING is ever drained: no
+/// C13 hand-off: the levels are built, then `advance` runs once per chromosome run -- at most `chrom_ids.len()` runs:
+/// since c035b89 the first pass refuses a chromosome that starts a second run, so #runs == #ids for EVERY sort type
+/// (unit chrom_ids `driver_chromosome_table/table/one_run_per_chromosome_id`); still assumed: the second pass sees the
+/// same chromosome runs as the first (same `make_vals`) -- and NOTHING is ever drained: no
 /// `try_send(..).unwrap()` can fail.  Nothing is re-implemented: the driver calls the extracted `build_levels` and
 /// `advance_zoom_vals`.
 fn driver_handoff(zooms: &Vec<u32>, options: &BBIWriteOptions, chrom_ids: &StrMap, procs: Vec<ProcZ>) -> (r: SMap)
